@@ -2,6 +2,7 @@ import TsVerif.Common.IO
 import TsVerif.Common.Tree
 import TsVerif.C05.Judge
 import TsVerif.C05.CapQuant
+import TsVerif.C05.Verify
 /-!
 Driver for C05: reads cases written by `harness/src/bin/c05.rs` (visible tree, query text, compile
 verdict, matches of the real cursor), parses the query into `Pat`, runs `matchAll`, prints
@@ -21,6 +22,7 @@ structure St where
   capNames : Array String := #[]
   impls : Array MatchKey := #[]
   cqs : Array (Nat × List Nat) := #[]
+  sups : List String := []
 
 def strOfHex (h : String) : String :=
   if h == "-" then "" else
@@ -178,22 +180,59 @@ def anchorAfterUnnamedWildcard (q : String) : Bool :=
     | [] => false
   go toks
 
+/-- `( … ( group ) . )`: a trailing anchor directly after a plain group. -/
+def trailingAnchorAfterGroup (q : String) : Bool :=
+  let toks := (tokenize (q.length + 1) q.toList #[]).toList
+  let rec go : List Bool → List Tok → Bool
+    | _, [] => false
+    | st, .lp :: rest =>
+      let isGroup := match rest with | .lp :: _ => true | .lb :: _ => true | .str _ :: _ => true | _ => false
+      go (isGroup :: st) rest
+    | st, .rp :: rest =>
+      match st with
+      | g :: st' => (g && (match rest with | .dot :: .rp :: _ => true | _ => false)) || go st' rest
+      | [] => go [] rest
+    | st, _ :: rest => go st rest
+  go [] toks
+
 def runCase (s : St) : String :=
   let tail := s!"compiled={s.compiled.getD false} haserror={s.hasError}"
   match buildVT s.nodes.toList with
   | none => s!"{s.id} judge=FAIL badtree {tail}"
   | some vt =>
-    match parseQuery s.query with
+    match parseQuery s.query s.sups with
     | none => s!"{s.id} judge=SKIP unsupported {tail}"
     | some items =>
       let quant := Item.anyQuant items
-      if quant && maxFanout vt > 9 then s!"{s.id} judge=SKIP toolarge qfree=false {tail}" else
+      if quant && maxFanout vt > 9 then
+        -- wide tree + quantifiers: no enumeration; every real match is VERIFIED against the semantics
+        -- (soundness, which is all the property demands of quantified patterns)
+        match s.compiled with
+        | some true =>
+          let bad := s.impls.toList.filter fun m =>
+            match items[m.1]? with
+            | some it => !verifyAnywhere vt it m.2
+            | none => true
+          let (cqCorr, cqJudge) := checkCapQ s items
+          let info := s!"nimpl={s.impls.size} nmodel=- qfree=false npat={items.length} capq={cqCorr} capqjudge={cqJudge} verified=true {tail}"
+          if bad.isEmpty then s!"{s.id} judge=ok {info}"
+          else
+            let kind := if (s.query.splitOn " .)").length > 1 && hasNestedChildPattern s.query then "unsound-quantified-trailing-anchor-nested"
+              else if (s.query.splitOn " .)").length > 1 then "unsound-quantified-trailing-anchor" else "unsound-verifier"
+            s!"{s.id} judge=FAIL {kind} first={repr bad.head!} {info}"
+        | _ => s!"{s.id} judge=SKIP toolarge-rejected qfree=false {tail}"
+      else
       let model := modelMatches vt items
       let impl := s.impls.toList.map fun m => (m.1, canon m.2)
       let (cqCorr, cqJudge) := checkCapQ s items
       -- statistic only (the property demands completeness for quantifier-free patterns only)
       let qempty := quant && ((List.range items.length).any fun p => (model.any fun x => x.1 == p) && !(impl.any fun x => x.1 == p))
-      let info := s!"nimpl={impl.length} nmodel={model.length} qfree={!quant} npat={items.length} capq={cqCorr} capqjudge={cqJudge} qempty={qempty} {tail}"
+      -- cross-validation of the verifier against the enumeration on the real matches
+      let vdiff := s.compiled == some true && s.impls.toList.any fun m =>
+        match items[m.1]? with
+        | some it => verifyAnywhere vt it m.2 != model.contains (m.1, canon m.2)
+        | none => false
+      let info := s!"verif={if vdiff then "DIFF" else "agree"} nimpl={impl.length} nmodel={model.length} qfree={!quant} npat={items.length} capq={cqCorr} capqjudge={cqJudge} qempty={qempty} {tail}"
       match s.compiled with
       | some true =>
         if !(impl.all fun x => model.contains x) then
@@ -214,7 +253,7 @@ def runCase (s : St) : String :=
         else if !quant && !completeB impl model then
           let bad := model.filter fun x => countOf x model > countOf x impl
           let subsumed := bad.all fun x => impl.any fun y => y.1 == x.1 && y != x && subBag x.2 y.2
-          let kind := if subsumed then "incomplete-subsumed" else if (s.query.splitOn "[").length > 1 && (s.query.splitOn "(_ ").length > 1 then "incomplete-wildroot-branch-in-alternation" else if anchorAfterNestedWildcard s.query then "incomplete-anchor-after-nested-wildcard" else if anchorAfterAlternation s.query then "incomplete-anchor-after-uncaptured-alternation" else if uncapturedSubtree s.query then "incomplete-uncaptured-subtree" else if (s.query.splitOn "(MISSING").length > 1 then "incomplete-missing-uncaptured" else if (s.query.splitOn "(ERROR ").length > 1 then "incomplete-error-children-uncaptured" else if anchorAfterUncapturedSubtree s.query then "incomplete-anchor-after-uncaptured-subtree" else if anchorAfterUnnamedWildcard s.query then "incomplete-strict-anchor-after-uncaptured-unnamed-wildcard" else if anchorAfterUncaptured s.query then "incomplete-anchor-uncaptured" else "incomplete"
+          let kind := if subsumed then "incomplete-subsumed" else if trailingAnchorAfterGroup s.query then "incomplete-trailing-anchor-after-group" else if s.hasError && (s.query.splitOn "(ERROR").length > 1 && (s.query.splitOn ": ").length > 1 then "incomplete-field-under-error-node" else if (s.query.splitOn "[").length > 1 && (s.query.splitOn "(_ ").length > 1 then "incomplete-wildroot-branch-in-alternation" else if anchorAfterNestedWildcard s.query then "incomplete-anchor-after-nested-wildcard" else if anchorAfterAlternation s.query then "incomplete-anchor-after-uncaptured-alternation" else if uncapturedSubtree s.query then "incomplete-uncaptured-subtree" else if (s.query.splitOn "(MISSING").length > 1 then "incomplete-missing-uncaptured" else if (s.query.splitOn "(ERROR ").length > 1 then "incomplete-error-children-uncaptured" else if anchorAfterUncapturedSubtree s.query then "incomplete-anchor-after-uncaptured-subtree" else if anchorAfterUnnamedWildcard s.query then "incomplete-strict-anchor-after-uncaptured-unnamed-wildcard" else if anchorAfterUncaptured s.query then "incomplete-anchor-uncaptured" else "incomplete"
           s!"{s.id} judge=FAIL {kind} first={repr bad.head!} {info}"
         else if cqJudge != "ok" then s!"{s.id} judge=FAIL capture-count-outside-quantifier {info}"
         else s!"{s.id} judge=ok {info}"
@@ -223,7 +262,7 @@ def runCase (s : St) : String :=
         let line := ((s.query.toList.take s.errOffset).filter (· == '\n')).length
         let modelHere := model.filter fun x => x.1 == line
         if s.errOffset > s.srcLen then s!"{s.id} judge=FAIL offset-outside-source {info}"
-        else if !s.hasError && !modelHere.isEmpty then s!"{s.id} judge=FAIL rejected-but-matches errkind={s.errKind} pattern={line} optional={optionalParts s.query} extras={decide ((s.query.splitOn "(comment").length > 1)} {info}"
+        else if !s.hasError && !modelHere.isEmpty then s!"{s.id} judge=FAIL rejected-but-matches errkind={s.errKind} pattern={line} optional={optionalParts s.query} extras={decide ((s.query.splitOn "(comment").length > 1)} super={s.sups.any fun n => (s.query.splitOn ("(" ++ n)).length > 1} {info}"
         else s!"{s.id} judge=ok rejected={s.errKind} {info}"
 
 def step (s : St) (line : String) : IO St := do
@@ -234,10 +273,12 @@ def step (s : St) (line : String) : IO St := do
   | ["compile", "ok"] => return { s with compiled := some true }
   | ["compile", "err", off, kind, len] =>
     return { s with compiled := some false, errOffset := natOf off, errKind := kind, srcLen := natOf len }
-  | ["n", id, named, missing, error, extra, sb, eb, nc, kind, field] =>
+  | "supertypes" :: names => return { s with sups := names.map strOfHex }
+  | ["n", id, named, missing, error, extra, sb, eb, nc, kind, field, sv] =>
     let i : VInfo := { id := natOf id, kind := strOfHex kind, named := named == "1", missing := missing == "1",
                        error := error == "1", extra := extra == "1",
-                       field := if field == "-" then none else some (strOfHex field), sb := natOf sb, eb := natOf eb }
+                       field := if field == "-" then none else some (strOfHex field), sb := natOf sb, eb := natOf eb,
+                       sups := if sv == "-" then [] else (sv.splitOn ",").map strOfHex }
     return { s with nodes := s.nodes.push (i, natOf nc) }
   | "caps" :: names => return { s with capNames := names.toArray }
   | "m" :: pat :: _n :: rest =>
